@@ -849,6 +849,130 @@ def rule_nav(trees):
     return res
 
 
+def rule_leaf(trees):
+    """S-LEAF: the two leaf arities have no siblings to agree with; arity 1 must delegate each set operation to the same
+    operation of its WBTreeSet, arity 0 (an Option<()>) must implement the truth tables of a one-element set."""
+    res = RuleResult("S-LEAF")
+    methods = _prefix_tree_methods(trees)
+    loc = "eqlog-runtime/src/prefix_tree.rs"
+
+    def single_expr(fn):
+        b = fn["b"]["s"]
+        if len(b) == 1 and stmt_expr(b[0]) is not None:
+            return stmt_expr(b[0])
+        return None
+    # ---- arity 1
+    for name, form in (("insert", "self.set.insert(%s)"), ("contains", "self.set.contains(&%s)"), ("remove", "self.set.remove(&%s)"),
+                       ("is_empty", "self.set.is_empty()"), ("clear", "self.set.clear()")):
+        fn = methods.get(name, {}).get(1)
+        if fn is None:
+            raise AnchorError("PrefixTree1::%s not found" % name)
+        e = single_expr(fn)
+        ps = []
+        for p_ in fn["params"]:
+            if kind(p_) == "param":
+                names = [x["n"] for x in walk(p_["p"]) if kind(x) == "pid"]
+                ps += names
+        want = form % ps[0] if "%s" in form else form
+        where = "%s:%s PrefixTree1::%s" % (loc, fn["ln"], name)
+        if e is not None and expr_str(e) == want:
+            res.ok()
+        else:
+            res.bad("S-LEAF:PrefixTree1:%s" % name, where, "PrefixTree1::%s is not the delegation `%s`" % (name, want))
+    for name in ("union", "difference"):
+        fn = methods.get(name, {}).get(1)
+        if fn is None:
+            raise AnchorError("PrefixTree1::%s not found" % name)
+        ps = [p_["p"]["n"] for p_ in fn["params"] if kind(p_) == "param" and kind(p_["p"]) == "pid"]
+        calls = [x for x in walk(fn["b"]) if mcall(x, name)]
+        where = "%s:%s PrefixTree1::%s" % (loc, fn["ln"], name)
+        if len(calls) == 1 and expr_str(calls[0]["r"]) == "self.set" and len(calls[0]["a"]) == 1 and expr_str(calls[0]["a"][0]) == "&%s.set" % ps[0]:
+            res.ok()
+        else:
+            res.bad("S-LEAF:PrefixTree1:%s" % name, where, "PrefixTree1::%s is not self.set.%s(&other.set)" % (name, name))
+    # ---- arity 0: evaluate the tiny bodies over {present, absent}
+    def eval0(e, env):
+        """value of an Option<()>/bool expression under env {'self': bool, 'other': bool}"""
+        k = kind(e)
+        txt = expr_str(e)
+        if txt in ("self.0", "other.0"):
+            return env[txt.split(".")[0]]
+        if txt in ("None",) or (k == "path" and e["p"] == "None"):
+            return False
+        if txt == "Some(())":
+            return True
+        if mcall(e, "is_some") and not e["a"]:
+            return eval0(e["r"], env)
+        if mcall(e, "is_none") and not e["a"]:
+            return not eval0(e["r"], env)
+        if mcall(e) and e["m"] in ("or",) and len(e["a"]) == 1:
+            return eval0(e["r"], env) or eval0(e["a"][0], env)
+        if mcall(e) and e["m"] in ("and",) and len(e["a"]) == 1:
+            return eval0(e["r"], env) and eval0(e["a"][0], env)
+        if k == "call" and is_path(e["f"], "PrefixTree0") and len(e["a"]) == 1:
+            return eval0(e["a"][0], env)
+        if k == "un" and e["op"] == "!":
+            return not eval0(e["e"], env)
+        if k == "match" and kind(e["e"]) == "tuple":
+            vals = [eval0(x, env) for x in e["e"]["e"]]
+            for arm in e["arms"]:
+                pats = arm["p"]["e"] if kind(arm["p"]) == "ptuple" else None
+                if pats is None or len(pats) != len(vals):
+                    raise ValueError("match arm")
+                okarm = True
+                for pv, v_ in zip(pats, vals):
+                    ptxt = pv.get("p", "") if kind(pv) in ("ptstruct", "ppath") else ("_" if kind(pv) == "pwild" else (pv.get("n") if kind(pv) == "pid" else "?"))
+                    if ptxt == "Some" and not v_:
+                        okarm = False
+                    if ptxt == "None" and v_:
+                        okarm = False
+                    if ptxt not in ("Some", "None", "_"):
+                        raise ValueError("pattern %s" % ptxt)
+                if okarm:
+                    b_ = arm["b"]
+                    return eval0(b_, env)
+            raise ValueError("no arm")
+        if k == "block" and len(e["s"]) == 1 and stmt_expr(e["s"][0]) is not None:
+            return eval0(stmt_expr(e["s"][0]), env)
+        raise ValueError("expression %s" % txt)
+    for name, ref in (("union", lambda a, b: a or b), ("difference", lambda a, b: a and not b), ("contains", lambda a, b: a), ("is_empty", lambda a, b: not a)):
+        fn = methods.get(name, {}).get(0)
+        if fn is None:
+            raise AnchorError("PrefixTree0::%s not found" % name)
+        where = "%s:%s PrefixTree0::%s" % (loc, fn["ln"], name)
+        e = single_expr(fn)
+        try:
+            if e is None:
+                raise ValueError("body is not a single expression")
+            bad = [(a, b) for a in (False, True) for b in (False, True) if eval0(e, {"self": a, "other": b}) != ref(a, b)]
+        except (ValueError, KeyError) as ex:
+            res.bad("S-LEAF:PrefixTree0:%s:not-evaluable" % name, where, "PrefixTree0::%s: %s" % (name, ex))
+            continue
+        if bad:
+            res.bad("S-LEAF:PrefixTree0:%s" % name, where, "PrefixTree0::%s is wrong for (self present, other present) = %s" % (name, bad))
+        else:
+            res.ok()
+    # insert / remove / clear of arity 0: assign Some(()) / None and report the previous state
+    for name, newval, report in (("insert", "Some(())", "is_none"), ("remove", "None", "is_some"), ("clear", "None", None)):
+        fn = methods.get(name, {}).get(0)
+        if fn is None:
+            raise AnchorError("PrefixTree0::%s not found" % name)
+        where = "%s:%s PrefixTree0::%s" % (loc, fn["ln"], name)
+        assigns = [x for x in walk(fn["b"]) if kind(x) == "assign" and expr_str(x["lhs"]) == "self.0"]
+        okv = len(assigns) == 1 and expr_str(assigns[0]["rhs"]) == newval
+        if report:
+            lets = [x for x in fn["b"]["s"] if kind(x) == "let" and x["e"] is not None and expr_str(x["e"]) == "self.0.%s()" % report]
+            last = stmt_expr(fn["b"]["s"][-1]) if fn["b"]["s"] else None
+            okv = okv and len(lets) == 1 and kind(lets[0]["p"]) == "pid" and last is not None and expr_str(last) == lets[0]["p"]["n"] \
+                and lets[0]["ln"] < assigns[0]["ln"]
+        if okv:
+            res.ok()
+        else:
+            res.bad("S-LEAF:PrefixTree0:%s" % name, where, "PrefixTree0::%s does not set the tree to %s%s" % (name, newval, " and report the previous state" if report else ""))
+    res.sample({"arity1": ["insert", "contains", "remove", "is_empty", "clear", "union", "difference"], "arity0": ["union", "difference", "contains", "is_empty", "insert", "remove", "clear"]})
+    return res
+
+
 def rule_sib(trees):
     """S-SIB: PrefixTree2..9 are the same implementation."""
     res = RuleResult("S-SIB")
